@@ -335,6 +335,20 @@ def m3(ck, em, rng, ntraces):
                         sc_ = float(np.max(np.abs(one))) + 1e-12
                         fact("ItemsScoredIndependently", allc.shape == one.shape and np.max(np.abs(allc - one)) <= 1e-9 * sc_,
                              items=k, offsets=how, normalised=nrm, together=allc.tolist(), alone=one.tolist())
+            # the storage type of the UBM's parameters is not part of the formula: a UBM whose (float32-representable)
+            # means are kept in single precision scores double-precision models like the same UBM kept in double
+            # precision; models a small step away from a UBM far from the origin make any rounding of the model visible
+            mu32 = (mu + float(r.choice([0.0, 50.0, -300.0]))).astype(np.float32)
+            u64, u32 = gmm(mu32.astype(np.float64), var), gmm(mu32.astype(np.float64), var)
+            u32.means = mu32                      # kept as given: a float32 array
+            near = mu32.astype(np.float64)[None] + 10.0 ** r.uniform(-4, -1) * r.normal(size=(nm, c, d))
+            Xs = X + (mu32.astype(np.float64) - mu).mean(axis=0)
+            s64, s32 = u64.acc_stats(Xs), u32.acc_stats(Xs)
+            for nrm in (False, True):
+                a64 = np.asarray(em.linear_scoring(near, u64, [s64], [off], nrm))
+                a32 = np.asarray(em.linear_scoring(near, u32, [s32], [off], nrm))
+                fact("StorageTypeOfUbmIrrelevant", a32.shape == a64.shape and np.max(np.abs(a32 - a64)) <= 1e-9 * (float(np.max(np.abs(a64))) + 1e-12),
+                     normalised=nrm, float32_ubm=a32.tolist(), float64_ubm=a64.tolist())
             big = float(np.max(np.abs(sc))) + 1e-12
             fact("NormalisedIsScoreOverT", np.all(np.isfinite(sc_norm)) and np.max(np.abs(sc_norm * n - sc)) <= 1e-9 * big,
                  normalised=sc_norm.tolist(), score=sc.tolist(), t=n)
